@@ -5,7 +5,9 @@ import (
 	"testing"
 )
 
-// TestC07Proc — brokered gRPC connections in both directions behind a container-like custom runner: the
+// TestC07Proc — brokered gRPC connections in both directions behind custom runners that translate addresses
+// (runner-xlate: a container-like runner; runner-fwd: the plugin's Unix sockets are reached through loopback TCP
+// port-forwards, so the translation changes the network type as well): the
 // plugin sees the shared socket directory under another path, the runner translates addresses both ways and
 // refuses anything outside that directory (as a bind mount would). With and without AutoMTLS, with and
 // without multiplexing (where no address is exchanged); real plugin.Serve child, real Client.
@@ -14,7 +16,7 @@ func TestC07Proc(t *testing.T) {
 	var cells []Cell
 	for _, tls := range []string{"none", "auto"} {
 		for _, mux := range []bool{false, true} {
-			for _, launch := range []string{"runner", "runner-xlate"} {
+			for _, launch := range []string{"runner", "runner-xlate", "runner-fwd"} {
 				for _, hist := range [][]string{{"callback"}, {"revcallback"}, {"callback", "revcallback"}, {"revcallback", "callback", "callback"}} {
 					ops := append([]string{"new", "start", "client", "dispense", "set:5"}, hist...)
 					ops = append(ops, "get", "ping", "kill")
